@@ -119,6 +119,29 @@ class Oracle:
             raise Abort()
         return self.s.model()
 
+    def random_model(self, bool_vars, int_vars, rng):
+        """a model of pre-condition + path condition in which the listed variables take random values where consistent
+        (greedy: variables in random order, each fixed to a random value if that is still satisfiable)"""
+        fixed = []
+        items = [("b", v) for v in bool_vars] + [("i", v) for v in int_vars]
+        rng.shuffle(items)
+        for kind, v in items:
+            if kind == "b":
+                lit = v if rng.random() < 0.5 else z3.Not(v)
+                cands = [lit, z3.Not(lit)]
+            else:
+                lo, hi = v[1], v[2]
+                order = list(range(lo, hi + 1))
+                rng.shuffle(order)
+                cands = [v[0] == k for k in order[:3]]
+            for c in cands:
+                if self.s.check(*(fixed + [c])) == z3.sat:
+                    fixed.append(c)
+                    break
+        if self.s.check(*fixed) != z3.sat:
+            return None
+        return self.s.model()
+
     def check_post(self, negated_post):
         """is there a pre-state on this path violating the post-condition? returns model or None"""
         t0 = time.time()
